@@ -179,7 +179,9 @@ void write_pattern(char* p, size_t from, size_t to, unsigned long seed) {
     vh::emit("wrote %lu", (unsigned long) (to > from ? to - from : 0));
 }
 
-struct Lab { char* p; size_t size; int fam; bool global; bool live; unsigned long id; };
+struct Lab { char* p; size_t size; int fam; bool global; bool live; unsigned long id; bool sep; };
+
+Lab mklab(char* p, size_t size, int fam, bool global, unsigned long id, bool sep) { Lab l = { p, size, fam, global, true, id, sep }; return l; }
 
 unsigned long id_of(const void* p) { int i = find_containing(p); return i >= 0 ? g_blk[i].id : 0; }   // fam 0 new, 1 new[], 2 malloc
 
@@ -217,7 +219,8 @@ void body() {
     RecAllocator a_new("rec new", "new", "delete"), a_arr("rec new []", "new []", "delete []"), a_mal("rec malloc", "malloc", "free");
     RecAllocator* allocs[3] = { &a_new, &a_arr, &a_mal };
     std::map<std::string, Lab> labs;
-    bool oom = false, nullnew = false;
+    bool oom = false, nullnew = false, crashalloc = false, tsafe = false;
+    static CrashOnAllocationAllocator crash_new, crash_arr, crash_mal;
     MemoryLeakDetector* gd = MemoryLeakWarningPlugin::getGlobalDetector();
 
     for (size_t i = 0; i < c.ops.size(); i++) {
@@ -243,25 +246,29 @@ void body() {
             vh::emit("> fail %s %ld", w[1].c_str(), k);
         }
         // ------------------------------------------------------------ private detector
-        else if (op == "alloc" && w.size() == 5 && fam_of(w[1]) >= 0) {       // alloc <fam> <size> <label> <seed>
+        else if (op == "alloc" && (w.size() == 5 || w.size() == 6) && fam_of(w[1]) >= 0) {       // alloc <fam> <size> <label> <seed> [<allocatNodesSeperately 0|1>]
             int fam = fam_of(w[1]); size_t size = (size_t) vh::to_u64(w[2]); unsigned long seed = vh::to_u64(w[4]);
-            vh::emit("> alloc %s %lu %lu", w[1].c_str(), (unsigned long) size, seed);
-            char* p = det.allocMemory(allocs[fam], size, "h_c05", 1, fam == 2);
+            bool sep = w.size() == 6 ? (w[5] == "1") : (fam == 2);
+            if (sep == (fam == 2)) vh::emit("> alloc %s %lu %lu", w[1].c_str(), (unsigned long) size, seed);
+            else vh::emit("> allocx %s %lu %lu %d", w[1].c_str(), (unsigned long) size, seed, sep ? 1 : 0);   // the layout the public wrappers never choose
+            char* p = det.allocMemory(allocs[fam], size, "h_c05", 1, sep);
             emit_ret(p);
-            if (p) { write_pattern(p, 0, size, seed); Lab l = { p, size, fam, false, true, id_of(p) }; labs[w[3]] = l; }
+            if (p) { write_pattern(p, 0, size, seed); labs[w[3]] = mklab(p, size, fam, false, id_of(p), sep); }
             vh::emit("total %lu", (unsigned long) det.totalMemoryLeaks(mem_leak_period_all));
         }
-        else if (op == "realloc" && w.size() == 6 && fam_of(w[1]) >= 0) {     // realloc <fam> <label|null> <size> <newlabel> <seed>
+        else if (op == "realloc" && (w.size() == 6 || w.size() == 7) && fam_of(w[1]) >= 0) {     // realloc <fam> <label|null> <size> <newlabel> <seed> [<sep, for null>]
             int fam = fam_of(w[1]); size_t size = (size_t) vh::to_u64(w[3]); unsigned long seed = vh::to_u64(w[5]);
             char* old = 0; size_t oldsize = 0;
+            bool sep = w.size() == 7 ? (w[6] == "1") : (fam == 2);
             if (w[2] != "null") {
                 if (!labs.count(w[2]) || labs[w[2]].global) { vh::emit("> skip"); continue; }
-                old = labs[w[2]].p; oldsize = labs[w[2]].size;
+                old = labs[w[2]].p; oldsize = labs[w[2]].size; sep = labs[w[2]].sep;      // the layout the block was allocated with
             }
-            vh::emit("> realloc %s %lu %lu %lu", w[1].c_str(), old ? labs[w[2]].id : 0UL, (unsigned long) size, seed);
+            if (sep == (fam == 2)) vh::emit("> realloc %s %lu %lu %lu", w[1].c_str(), old ? labs[w[2]].id : 0UL, (unsigned long) size, seed);
+            else vh::emit("> reallocx %s %lu %lu %lu %d", w[1].c_str(), old ? labs[w[2]].id : 0UL, (unsigned long) size, seed, sep ? 1 : 0);
             g_realloc_moved = false;
             g_bracket = true;                         // the platform realloc seam records
-            char* p = det.reallocMemory(allocs[fam], old, size, "h_c05", 2, fam == 2);
+            char* p = det.reallocMemory(allocs[fam], old, size, "h_c05", 2, sep);
             g_bracket = false;
             emit_ret(p);
             if (!p && old && g_realloc_moved) labs[w[2]].live = false;
@@ -270,7 +277,7 @@ void body() {
                 emit_content(p, keep);
                 write_pattern(p, keep, size, seed);
                 if (old) labs[w[2]].live = false;
-                Lab l = { p, size, fam, false, true, id_of(p) }; labs[w[4]] = l;
+                labs[w[4]] = mklab(p, size, fam, false, id_of(p), sep);
             }
             vh::emit("total %lu", (unsigned long) det.totalMemoryLeaks(mem_leak_period_all));
         }
@@ -278,9 +285,10 @@ void body() {
             int fam = fam_of(w[1]);
             if (!labs.count(w[2]) || labs[w[2]].global) { vh::emit("> skip"); continue; }
             Lab& l = labs[w[2]];
-            vh::emit("> free %s %lu", w[1].c_str(), l.id);
+            if (l.sep == (fam == 2)) vh::emit("> free %s %lu", w[1].c_str(), l.id);
+            else vh::emit("> freex %s %lu %d", w[1].c_str(), l.id, l.sep ? 1 : 0);
             det.invalidateMemory(l.p);                // as mem_leak_free / operator delete do
-            det.deallocMemory(allocs[fam], l.p, "h_c05", 3, fam == 2);
+            det.deallocMemory(allocs[fam], l.p, "h_c05", 3, l.sep);
             l.live = false;
             vh::emit("total %lu", (unsigned long) det.totalMemoryLeaks(mem_leak_period_all));
         }
@@ -291,11 +299,13 @@ void body() {
         }
         // ------------------------------------------------------------ global API
         else if (op == "goom" && w.size() == 2) {
+            if (crashalloc) { vh::emit("> skip"); continue; }
             vh::emit("> goom %s", w[1] == "on" ? "on" : "off");
             if (w[1] == "on" && !oom) { cpputest_malloc_set_out_of_memory(); oom = true; }
             else if (w[1] != "on" && oom) { cpputest_malloc_set_not_out_of_memory(); oom = false; }
         }
         else if (op == "gnullnew" && w.size() == 2) {
+            if (crashalloc) { vh::emit("> skip"); continue; }
             vh::emit("> gnullnew %s", w[1] == "on" ? "on" : "off");
             nullnew = (w[1] == "on");
             if (nullnew) { setCurrentNewAllocator(NullUnknownAllocator::defaultAllocator()); setCurrentNewArrayAllocator(NullUnknownAllocator::defaultAllocator()); }
@@ -307,7 +317,7 @@ void body() {
             void* p; long delta;
             Res r = guarded([&]() { return cpputest_malloc(size); }, p, delta);
             emit_res(r, p);
-            if (r == R_PTR) { write_pattern((char*) p, 0, size, seed); Lab l = { (char*) p, size, 2, true, true, id_of(p) }; labs[w[2]] = l; }
+            if (r == R_PTR) { write_pattern((char*) p, 0, size, seed); labs[w[2]] = mklab((char*) p, size, 2, true, id_of(p), false); }
             vh::emit("delta %ld", delta);
         }
         else if (op == "gcalloc" && w.size() == 5) {                          // gcalloc <num> <size> <label> <seed>
@@ -323,7 +333,7 @@ void body() {
                 size_t shown = n <= avail ? n : avail; // never read outside what the platform really gave
                 emit_content((char*) p, shown);
                 write_pattern((char*) p, 0, shown, seed);
-                Lab l = { (char*) p, shown, 2, true, true, id_of(p) }; labs[w[3]] = l;
+                labs[w[3]] = mklab((char*) p, shown, 2, true, id_of(p), false);
             }
             vh::emit("delta %ld", delta);
         }
@@ -345,7 +355,7 @@ void body() {
                 emit_content((char*) p, keep);
                 write_pattern((char*) p, keep, size, seed);
                 if (old) labs[w[1]].live = false;
-                Lab l = { (char*) p, size, 2, true, true, id_of(p) }; labs[w[3]] = l;
+                labs[w[3]] = mklab((char*) p, size, 2, true, id_of(p), false);
             }
             vh::emit("delta %ld", delta);
         }
@@ -365,7 +375,7 @@ void body() {
             if (r == R_PTR) {
                 size_t len = strlen((char*) p) + 1;    // ASan bounds the scan
                 emit_content((char*) p, len);
-                Lab l = { (char*) p, len, 2, true, true, id_of(p) }; labs[label] = l;
+                labs[label] = mklab((char*) p, len, 2, true, id_of(p), false);
             }
             vh::emit("delta %ld", delta);
             free(buf);
@@ -381,7 +391,8 @@ void body() {
         else if (op == "gnew" && w.size() == 5) {                              // gnew <variant> <size> <label> <seed>
             size_t size = (size_t) vh::to_u64(w[2]); unsigned long seed = vh::to_u64(w[4]);
             const std::string& v = w[1];
-            int kind = v == "new" ? 0 : v == "new_nothrow" ? 1 : v == "new_debug" ? 2 : v == "new_array" ? 3 : v == "new_array_nothrow" ? 4 : v == "new_array_debug" ? 5 : -1;
+            int kind = v == "new" ? 0 : v == "new_nothrow" ? 1 : v == "new_debug" ? 2 : v == "new_array" ? 3 : v == "new_array_nothrow" ? 4 : v == "new_array_debug" ? 5
+                     : v == "new_debug_int" ? 6 : v == "new_array_debug_int" ? 7 : -1;
             if (kind < 0) { vh::emit("> skip"); continue; }
             vh::emit("> gnew %s %lu %lu", v.c_str(), (unsigned long) size, seed);
             void* p; long delta;
@@ -392,10 +403,12 @@ void body() {
                     case 2: return operator new(size, "h_c05", (size_t) 4);
                     case 3: return operator new[](size);
                     case 4: return operator new[](size, std::nothrow);
-                    default: return operator new[](size, "h_c05", (size_t) 5);
+                    case 5: return operator new[](size, "h_c05", (size_t) 5);
+                    case 6: return operator new(size, "h_c05", (int) 6);          // the (file, int line) overloads
+                    default: return operator new[](size, "h_c05", (int) 7);
                 } }, p, delta);
             emit_res(r, p);
-            if (r == R_PTR) { write_pattern((char*) p, 0, size, seed); Lab l = { (char*) p, size, kind >= 3 ? 1 : 0, true, true, id_of(p) }; labs[w[3]] = l; }
+            if (r == R_PTR) { write_pattern((char*) p, 0, size, seed); labs[w[3]] = mklab((char*) p, size, (kind >= 3 && kind != 6) ? 1 : 0, true, id_of(p), false); }
             vh::emit("delta %ld", delta);
         }
         else if (op == "gdelete" && w.size() == 2) {
@@ -405,6 +418,41 @@ void body() {
             guarded([&]() { if (fam == 1) operator delete[](q); else operator delete(q); return (void*) 0; }, p, delta);
             labs[w[1]].live = false;
             vh::emit("delta %ld", delta);
+        }
+        else if (op == "gdeletex" && w.size() == 3) {                          // gdeletex <loc_int|loc_size|sized|nothrow> <label>: the other operator delete overloads
+            const std::string& f = w[1];
+            int form = f == "loc_int" ? 0 : f == "loc_size" ? 1 : f == "sized" ? 2 : f == "nothrow" ? 3 : -1;
+            if (form < 0 || !labs.count(w[2]) || !labs[w[2]].global || !labs[w[2]].live || labs[w[2]].fam == 2 || nullnew) { vh::emit("> skip"); continue; }
+            vh::emit("> gdeletex %s %lu", f.c_str(), labs[w[2]].id);
+            void* p; long delta; char* q = labs[w[2]].p; int fam = labs[w[2]].fam; size_t sz = labs[w[2]].size;
+            guarded([&]() {
+                if (fam == 1) {
+                    if (form == 0) operator delete[](q, "h_c05", (int) 8); else if (form == 1) operator delete[](q, "h_c05", (size_t) 8);
+                    else if (form == 2) operator delete[](q, sz); else operator delete[](q, std::nothrow);
+                } else {
+                    if (form == 0) operator delete(q, "h_c05", (int) 8); else if (form == 1) operator delete(q, "h_c05", (size_t) 8);
+                    else if (form == 2) operator delete(q, sz); else operator delete(q, std::nothrow);
+                }
+                return (void*) 0; }, p, delta);
+            labs[w[2]].live = false;
+            vh::emit("delta %ld", delta);
+        }
+        else if (op == "gthreadsafe" && w.size() == 2) {                        // the threadsafe_mem_leak_* entry points (same functions behind the detector's mutex)
+            bool on = w[1] == "on";
+            if (nullnew || on == tsafe) { vh::emit("> skip"); continue; }
+            vh::emit("> gthreadsafe %s", on ? "on" : "off");
+            tsafe = on;
+            if (on) MemoryLeakWarningPlugin::turnOnThreadSafeNewDeleteOverloads(); else MemoryLeakWarningPlugin::turnOnDefaultNotThreadSafeNewDeleteOverloads();
+        }
+        else if (op == "gcrashalloc" && w.size() == 2) {                        // CrashOnAllocationAllocator (crash number 0 = never) as the current allocator of all three families
+            bool on = w[1] == "on";
+            bool anylive = false;
+            for (std::map<std::string, Lab>::iterator it = labs.begin(); it != labs.end(); ++it) if (it->second.global && it->second.live) anylive = true;
+            if (anylive || oom || nullnew || on == crashalloc) { vh::emit("> skip"); continue; }     // blocks must be released through the allocator that handed them out
+            vh::emit("> gcrashalloc %s", on ? "on" : "off");
+            crashalloc = on;
+            if (on) { setCurrentNewAllocator(&crash_new); setCurrentNewArrayAllocator(&crash_arr); setCurrentMallocAllocator(&crash_mal); }
+            else { setCurrentNewAllocatorToDefault(); setCurrentNewArrayAllocatorToDefault(); setCurrentMallocAllocatorToDefault(); }
         }
         else if (op == "finish" && w.size() == 1) {
             vh::emit_op("finish");
@@ -418,7 +466,7 @@ void body() {
             for (std::map<std::string, Lab>::iterator it = labs.begin(); it != labs.end(); ++it) {
                 Lab& l = it->second;
                 if (!l.live) continue;
-                if (!l.global) { det.invalidateMemory(l.p); det.deallocMemory(allocs[l.fam], l.p, "h_c05", 9, l.fam == 2); }
+                if (!l.global) { det.invalidateMemory(l.p); det.deallocMemory(allocs[l.fam], l.p, "h_c05", 9, l.sep); }
                 else {
                     gfreed++;
                     g_bracket = true;
@@ -428,6 +476,8 @@ void body() {
                 l.live = false;
             }
             g_quiet = false;
+            if (tsafe) { MemoryLeakWarningPlugin::turnOnDefaultNotThreadSafeNewDeleteOverloads(); tsafe = false; }
+            if (crashalloc) { setCurrentNewAllocatorToDefault(); setCurrentNewArrayAllocatorToDefault(); setCurrentMallocAllocatorToDefault(); crashalloc = false; }
             vh::emit("cleanup-misuse %lu", reporter.count - before);
             vh::emit("total %lu", (unsigned long) det.totalMemoryLeaks(mem_leak_period_all));
             vh::emit("gfreed %lu %ld", gfreed, (long) gd->totalMemoryLeaks(mem_leak_period_all) - (long) gbefore);
@@ -443,9 +493,11 @@ void body() {
     for (std::map<std::string, Lab>::iterator it = labs.begin(); it != labs.end(); ++it) {
         Lab& l = it->second;
         if (!l.live) continue;
-        if (!l.global) det.deallocMemory(allocs[l.fam], l.p, "h_c05", 9, l.fam == 2);
+        if (!l.global) det.deallocMemory(allocs[l.fam], l.p, "h_c05", 9, l.sep);
         else if (l.fam == 2) cpputest_free(l.p); else if (l.fam == 1) operator delete[](l.p); else operator delete(l.p);
     }
+    if (crashalloc) { setCurrentNewAllocatorToDefault(); setCurrentNewArrayAllocatorToDefault(); setCurrentMallocAllocatorToDefault(); }
+    if (tsafe) MemoryLeakWarningPlugin::turnOnDefaultNotThreadSafeNewDeleteOverloads();
     g_quiet = false;
 }
 
